@@ -10,7 +10,7 @@ import (
 )
 
 var vh_xferLinkTargets = []string{"srv1/conf", "srv2", "/srv1", "f", "srv1/../f"}
-var vh_xferRequests = []string{"srv*/conf", "srv1/conf", "L", "s*", "srv2/c*", "*/other", "L/conf", "f", "s*/c*"}
+var vh_xferRequests = []string{"srv*/conf", "srv1/conf", "L", "s*", "srv2/c*", "*/other", "L/conf", "f", "s*/c*", "L/c*", "srv3/c*", "srv3/conf", "L/l*", "srv2/l*", "srv3/l*", "*/lnk"}
 
 // starMatch: does a one-component pattern (only '*' is special) match the name?
 func vh_starMatch(pat, name string) bool {
@@ -37,30 +37,49 @@ func vh_hasStar(s string) bool {
 	return false
 }
 
-// expandRequest: the concrete paths of the tree a request with wildcards stands for (component by
-// component against the entries of the tree; a request without wildcards stands for itself).
+// expandRequest: the concrete paths a request with wildcards stands for. Components are matched one
+// after the other against the entries of the directory the path so far leads to (links in earlier
+// components followed as a chroot-ed kernel would), so "L/l*" with L -> srv2 stands for "L/lnk".
+// A request without wildcards stands for itself.
 func vh_expandRequest(snap []m.Entry, req string) []string {
 	if !vh_hasStar(req) {
 		return []string{req}
 	}
-	pc := vh_splitComps(req)
-	var out []string
-	for i := range snap {
-		ec := vh_splitComps(snap[i].Path)
-		if len(ec) != len(pc) {
-			continue
-		}
-		ok := true
-		for j := range pc {
-			if !vh_starMatch(pc[j], ec[j]) {
-				ok = false
+	cands := []string{""}
+	for _, pc := range vh_splitComps(req) {
+		var next []string
+		for _, c := range cands {
+			dir := ""
+			if c != "" {
+				_, final, exists, gaveUp := vh_physResolve(snap, c)
+				if !exists || gaveUp {
+					continue
+				}
+				dir = final
+				if k, _, ok := vh_snapKind(snap, dir); dir != "" && (!ok || k != m.KDir) {
+					continue
+				}
+			}
+			for i := range snap {
+				if vh_specParent(snap[i].Path) != dir {
+					continue
+				}
+				name := snap[i].Path
+				if dir != "" {
+					name = name[len(dir)+1:]
+				}
+				if vh_starMatch(pc, name) {
+					if c == "" {
+						next = append(next, name)
+					} else {
+						next = append(next, c+"/"+name)
+					}
+				}
 			}
 		}
-		if ok {
-			out = append(out, snap[i].Path)
-		}
+		cands = next
 	}
-	return out
+	return cands
 }
 
 // VH_C18_transfer: the consequence clause. A filtered view built with follow-paths (the resolved
@@ -77,6 +96,8 @@ func VH_C18_transfer() {
 	m.MkFile(root+"/srv1/other", []byte("o1"), 0644, 0, 0, 5)
 	m.MkDir(root+"/srv2", 0755, 0, 0, 5)
 	m.MkFile(root+"/srv2/conf", []byte("c2"), 0644, 0, 0, 5)
+	m.MkSymlink(root+"/srv1/lnk", "../z", 0, 0, 5) // links inside the directories, for wildcards to match
+	m.MkSymlink(root+"/srv2/lnk", "../f", 0, 0, 5)
 	m.MkFile(root+"/f", []byte("f"), 0644, 0, 0, 5)
 	m.MkFile(root+"/z", []byte("z"), 0644, 0, 0, 5)
 	m.MkSymlink(root+"/L", vh_xferLinkTargets[v.Choose("target-L", len(vh_xferLinkTargets))], 0, 0, 5)
